@@ -53,13 +53,32 @@ def gen_spikes(rng, wp, n=None, nmax=8):
     return sorted(s)
 
 
+def jitter(rng, wp, xs, keep_ends=False):
+    """a nearly-equal copy: every time moved by a tiny amount (1e-12 .. 1e-5 of its magnitude),
+    order and the interval preserved; exposes tolerance-based comparisons where exact ones are meant"""
+    t0, t1 = edges(wp)
+    out = []
+    scale = rng.choice([1e-12, 1e-9, 1e-7, 3e-6, 1e-5])
+    for k, t in enumerate(xs):
+        if keep_ends and (k == 0 or k == len(xs) - 1):
+            out.append(t)
+            continue
+        d = rng.choice([-1.0, 1.0, 0.0, 1.0]) * scale * max(1.0, abs(t)) * rng.random()
+        v = min(max(t + d, t0), t1)
+        out.append(v)
+    out = sorted(set(out))
+    return out
+
+
 def gen_pool(rng, wp, nmin=2, nmax=6, nspk=8):
     """list of valid trains on the common interval, with copies / near-copies / shared spikes"""
     n = rng.randint(nmin, nmax)
     pool = []
     for k in range(n):
         r = rng.random()
-        if pool and r < 0.12:
+        if pool and r < 0.05:
+            pool.append(jitter(rng, wp, rng.choice(pool)))
+        elif pool and r < 0.12:
             pool.append(list(rng.choice(pool)))
         elif pool and r < 0.22:
             base = list(rng.choice(pool))
@@ -113,7 +132,7 @@ def gen_max_tau(rng, wp):
     return rng.choice(['omit', None, 0.0, T / 32, T / 8, T, 3 * T])
 
 
-def gen_kw(rng, wp, family, allow_auto=True):
+def gen_kw(rng, wp, family, allow_auto=True, no_reconcile=False):
     """keyword dict for a measure family: 'isi', 'spike', 'sync', 'order', 'dir'"""
     kw = {}
     m = gen_mrts(rng, wp, allow_auto)
@@ -127,6 +146,8 @@ def gen_kw(rng, wp, family, allow_auto=True):
         mt = gen_max_tau(rng, wp)
         if mt != 'omit':
             kw['max_tau'] = mt
+    if no_reconcile and rng.random() < 0.12:
+        kw['Reconcile'] = False     # legitimate on valid input (C13: same result as the default)
     return kw
 
 
@@ -165,7 +186,10 @@ def gen_interval(rng, wp, spikes_flat):
             a, b = b, a
         a = max(t0, a)
         b = min(t1, b)
-        if not a < b:
+        if not b - a >= 1e-4 * T:
+            # intervals shorter than 1e-4 of the recording are not generated: the averages divide a
+            # difference of O(1) products by the interval length, so the comparison tolerance
+            # (1e-9) would be eaten by cancellation, not by a defect
             a, b = t0, t1
         return [a, b]
     if r < 0.9:
